@@ -40,12 +40,33 @@ pub fn run(ctx: &mut Ctx) {
     let mut cases = vec![];
     let mut queries = vec![];
     let mut metas = vec![];
-    for i in 0..n {
-        let big = i % 20 == 19;
+    // configurations whose last chunk ends at the top of the field (positions 65534 / 65535 in use):
+    // the only ones that read the last entries of the twiddle table
+    let n_limit = if ctx.thorough() { 8 } else { 2 };
+    for i in 0..n + n_limit {
+        let limit = i >= n;
+        let big = i % 20 == 19 || limit;
         let max_work = if big { 1024 } else { *ctx.rng.pick(&[8usize, 16, 32, 64, 128]) };
         let sizes: &[usize] = if max_work > 64 { &[2, 4, 64] } else { &SMALL_SIZES };
-        let cfg = gen_cfg(&mut ctx.rng, max_work, &["high", "low", "default", "rs"], &ENGINES, sizes);
-        let originals = if i % 4 == 0 {
+        let cfg = if limit {
+            let small = *ctx.rng.pick(&[1usize, 2, 3, 4, 7, 8, 200]);
+            let large = 65536 - npow2(small) - ctx.rng.below(2);
+            let high = (i - n) % 2 == 0;
+            ctx.count("limit", if high { "high" } else { "low" });
+            ctx.count("limit_cfg", &format!("{}:{}", if high { large } else { small }, if high { small } else { large }));
+            Cfg {
+                kind: (*ctx.rng.pick(&[if high { "high" } else { "low" }, "default"])).to_string(),
+                engine: (*ctx.rng.pick(&ENGINES)).to_string(),
+                k: if high { large } else { small },
+                r: if high { small } else { large },
+                sb: 2,
+            }
+        } else {
+            gen_cfg(&mut ctx.rng, max_work, &["high", "low", "default", "rs"], &ENGINES, sizes)
+        };
+        let originals = if limit {
+            (0..cfg.k).map(|_| ctx.rng.bytes(cfg.sb)).collect()
+        } else if i % 4 == 0 {
             // unit vectors at one slot: decides the whole linear map of this configuration
             let u = ctx.rng.below(cfg.k);
             (0..cfg.k).map(|j| { let mut v = vec![0u8; cfg.sb]; if j == u { v[0] = 1; } v }).collect()
@@ -91,13 +112,20 @@ pub fn run(ctx: &mut Ctx) {
     let runs = ctx.run_cases(&cases);
     reed_solomon_simd::verif_hooks::POISON_SEED.store(0, std::sync::atomic::Ordering::Relaxed);
     // closed form, spread over processes
-    let chunks: Vec<Vec<String>> = queries.chunks((queries.len() + 13) / 14).map(|c| c.to_vec()).collect();
+    // round-robin over 14 processes, heaviest (last = limit configurations) first in their process
+    const NP: usize = 14;
+    let nq = queries.len();
+    let chunks: Vec<Vec<String>> = (0..NP).map(|p| (0..nq).rev().filter(|i| i % NP == p).map(|i| queries[i].clone()).collect()).collect();
     let mp = ctx.model_path.clone();
     let handles: Vec<_> = chunks.into_iter().map(|q| { let mp = mp.clone(); std::thread::spawn(move || crate::ctx::model_eval_at(&mp, &q)) }).collect();
-    let mut closed = vec![];
-    for h in handles {
+    let mut closed = vec![String::new(); nq];
+    for (p, h) in handles.into_iter().enumerate() {
         match h.join().unwrap() {
-            Ok(a) => closed.extend(a),
+            Ok(a) => {
+                for (slot, ans) in (0..nq).rev().filter(|i| i % NP == p).zip(a.into_iter()) {
+                    closed[slot] = ans;
+                }
+            }
             Err(e) => {
                 ctx.model_fail(format!("closed-form oracle could not be evaluated: {}", e), &dummy, None);
                 return;
